@@ -3,6 +3,7 @@ package main
 import (
 	"fmt"
 	"go/token"
+	"sort"
 	"strings"
 
 	"golang.org/x/tools/go/ssa"
@@ -48,6 +49,10 @@ func runC15(c *Ctx) {
 	// the store side of a (multi-block) disconnect: every block at or above the new tip is detached
 	checkRollbackWalk(c, "C15-R1")
 	checkReorgDisconnectHashes(c, "C15-R2")
+	checkRescanFinishedCatchesUpToBackendTip(c, "C15-R2")
+	checkReorgListBuiltInOneDirection(c, "C15-R2")
+	// the wallet can follow the backend only if the notifications reach it in the order they were produced
+	c.Borrow(runC18, "C18-R1", "C15-R2", func(k string) bool { return strings.HasPrefix(k, "direct-handoff-only-when-overflow-empty") })
 
 	// ---------- R2 stamp completeness at every SetSyncedTo site ----------
 	nSites := 0
@@ -732,4 +737,110 @@ func checkReorgDisconnectHashes(c *Ctx, rule string) {
 		}
 	}
 	c.Floor(rule, "stamp hash updates in the reorg walk", n, 1)
+}
+
+// checkRescanFinishedCatchesUpToBackendTip: block-connected notifications that arrive while the wallet is still rescanning
+// are dropped when their predecessor is unknown ("we'll catch up once we process RescanFinished"). That promise holds
+// only if the catch-up at RescanFinished goes to the backend's CURRENT tip: the height it catches up to must depend on
+// the backend's best height, not only on the height the (earlier started) rescan reports. Otherwise a block connected in
+// between stays missing and every later block fails the predecessor check.
+func checkRescanFinishedCatchesUpToBackendTip(c *Ctx, rule string) {
+	p := c.P
+	fn := walletFn(c, rule, "handleChainNotifications")
+	if fn == nil {
+		return
+	}
+	n := 0
+	setSynced := p.Func("waddrmgr", "Manager", "SetSyncedTo")
+	isCatchUp := func(call *ssa.Call) bool {
+		// by role: a call of a function (usually a local function literal) that records block stamps it fetches from
+		// the backend by height
+		for _, g := range p.Callees(call) {
+			if !p.InRepo(g) || setSynced == nil || !p.reachSet(g)[setSynced] {
+				continue
+			}
+			for _, cl := range Closures(g) {
+				for _, ci := range callsOf(cl) {
+					if calleeShort(ci.Common()) == "GetBlockHash" {
+						return true
+					}
+				}
+			}
+		}
+		return false
+	}
+	for _, f := range p.regionOf(fn) {
+		for _, ci := range callsOf(f) {
+			call, ok := ci.(*ssa.Call)
+			if !ok || len(call.Call.Args) == 0 || !isCatchUp(call) {
+				continue
+			}
+			// only the catch-up in the finished-rescan arm: its height derives from a RescanFinished notification
+			arg := call.Call.Args[len(call.Call.Args)-1]
+			fromNtfn, fromBackend := false, false
+			for _, o := range (&Slicer{P: p, KeepExtract: true, ThroughDeref: true}).Origins(arg) {
+				if _, fld, base, ok := fieldOf(o); ok && fld == "Height" {
+					if strings.Contains(base.Type().String(), "RescanFinished") {
+						fromNtfn = true
+					}
+				}
+				if ex, ok := o.(*ssa.Extract); ok {
+					if cc, ok := ex.Tuple.(*ssa.Call); ok && (calleeShort(&cc.Call) == "GetBestBlock" || calleeShort(&cc.Call) == "BlockStamp") {
+						fromBackend = true
+					}
+				}
+			}
+			if !fromNtfn && !fromBackend {
+				continue
+			}
+			n++
+			c.Check(rule, "finished-rescan-catches-up-to-backend-tip", call.Pos(), fromBackend,
+				"at RescanFinished the wallet catches up only to the height the rescan reports: a block that connected while the rescan ran (dropped because its predecessor was unknown) is never recorded, every later block fails the predecessor check and the wallet stays behind the backend until restart")
+		}
+	}
+	c.Floor(rule, "catch-up calls at rescan end", n, 1)
+}
+
+// checkReorgListBuiltInOneDirection: BitcoindClient.reorg collects the new branch's blocks in one list — walking from
+// the new tip towards the common ancestor, in two loops — and then replays the list from its front, numbering the blocks
+// with consecutive heights. Every insertion into that list therefore uses the same end (sibling agreement of the two
+// collecting loops): an insertion at the other end in one of them replays blocks under the wrong heights.
+func checkReorgListBuiltInOneDirection(c *Ctx, rule string) {
+	p := c.P
+	fn := p.Func("chain", "BitcoindClient", "reorg")
+	if fn == nil {
+		c.Unresolved(rule, "chain.BitcoindClient.reorg")
+		return
+	}
+	byList := map[ssa.Value]map[string]int{}
+	var pos token.Pos
+	for _, ci := range callsOf(fn) {
+		call, ok := ci.(*ssa.Call)
+		if !ok {
+			continue
+		}
+		g := call.Call.StaticCallee()
+		if g == nil || fnPkgPath(g) != "container/list" || !strings.HasPrefix(g.Name(), "Push") {
+			continue
+		}
+		l := stripConv(call.Call.Args[0])
+		if byList[l] == nil {
+			byList[l] = map[string]int{}
+		}
+		byList[l][g.Name()]++
+		pos = call.Pos()
+	}
+	n := 0
+	for _, methods := range byList {
+		n++
+		var ms []string
+		for m, k := range methods {
+			ms = append(ms, fmt.Sprintf("%s x%d", m, k))
+		}
+		sort.Strings(ms)
+		c.Check(rule, "reorg-block-list-built-in-one-direction", pos, len(methods) == 1,
+			"BitcoindClient.reorg inserts into the list of blocks to replay at both ends ("+strings.Join(ms, ", ")+"): the list is replayed from the front with consecutive heights, so after a reorg deeper than one block the wallet is told to connect the new branch's blocks under wrong heights")
+	}
+	c.Floor(rule, "block lists built by reorg", n, 1)
+	_ = p
 }
